@@ -2,7 +2,7 @@
 Require Extraction.
 Require Import ExtrOcamlBasic.
 From Coq Require Import ZArith NArith List.
-Require Import Yui.Model.Link Yui.Model.Braid Yui.Model.BraidOps.
+Require Import Yui.Model.Link Yui.Model.LinkAt Yui.Model.Braid Yui.Model.BraidOps.
 Extraction Language OCaml.
 Extraction "../ocaml/gen/c18_model.ml"
   Z.add N.add Nat.add
@@ -10,5 +10,6 @@ Extraction "../ocaml/gen/c18_model.ml"
   Link.signed_crossing_nums Link.writhe Link.crossing_num Link.resolved_at Link.resolved_by Link.mirror
   Link.ori_pres_state Link.seifert_circles Link.first_edge Link.edge_labels Link.valid Link.comp_starts
   Link.relabel Link.neg_sign
+  LinkAt.crossing_index LinkAt.crossing_at LinkAt.resolve_via_index
   Braid.closure_code Braid.closure Braid.strands_of_word Braid.braid_perm Braid.count_cycles Braid.exponent_sum
   BraidOps.braid_inv BraidOps.braid_mul BraidOps.braid_len BraidOps.braid_is_triv.
